@@ -57,9 +57,18 @@ def run(c):
         "temporary / permanent x annotated / unannotated / unclassified, random beyond; the failure at Start / AddRcpt / Body / a BodyNonAtomic status / Commit; "
         "attempt bound 1-5; restarts between attempts), the .meta record read after EACH attempt and the failure report handed to the bounce pipeline parsed with the "
         "stdlib; the real dsn.GenerateDSN on stored errors of both classes, 1-3 recipient groups, every action; "
+        "failures of maddy's own limits: a REAL limits.Group (built by Init) refusing a message — every scope (all / ip / source / destination) x concurrency / rate "
+        "(alone, combined, the other scopes limited or not) x the wait ended by an expired deadline / a deadline passing during the wait / a cancelled context / the bucket "
+        "table of the scope full (20011 buckets in use) — the error value as it is (what Session.Mail hands to wrapErr), through the real remote Target.Start and "
+        "AddRcpt / connectionForDomain, then through the real wrapErr and toSMTPErr; MAIL / first RCPT on the real endpoint (in-memory connection) with a full per-IP / "
+        "per-source table, defer_sender_reject on and off; AUTH exchanges on the real endpoint (go-smtp handleAuth, Session.Auth, SASLAuth.CreateSASL / AuthPlain): "
+        "PLAIN (with / without initial response, authorization identity empty / equal / different), LOGIN, LOGIN while disabled, an unknown mechanism x 1-3 scripted "
+        "providers each accepting or failing with any error tree (temporary / permanent / unclassified, annotated or not, internal texts) x auth_map hit / miss / lookup "
+        "failure x normalisation failure, the final reply read from the wire; "
         "distinct = distinct op lines",
         explanation="theorems over all error trees, all client errors, all lists of per-MX / per-endpoint outcomes, all histories of attempts (any length, any attempt "
-        "bound, any starting state) and all lists of stored errors in a report + decide over the regenerated literal table; "
+        "bound, any starting state), all lists of stored errors in a report, all ways a limit refuses a message, all AUTH scripts (any number of providers, any "
+        "error values: the reply is a function of which steps failed only) + decide over the regenerated literal table; "
         "model tied to the code by differential runs (the real error values are abstracted into model terms node by node and compared)",
         search=search,
     )
